@@ -170,6 +170,9 @@ def run_replay(script_path, timeout=600):
     env = dict(os.environ)
     env.pop("PYTHONPATH", None)
     env["PYTHONWARNINGS"] = "ignore"
+    if REPO != "/repo":
+        # development runs against a scratch tree (NANITE_REPO): replay there too
+        env["PYTHONPATH"] = os.path.join(REPO, "src")
     try:
         p = subprocess.run([REAL_PY, script_path], capture_output=True, text=True,
                            timeout=timeout, env=env, cwd=REPO)
